@@ -912,7 +912,7 @@ func hash64(s string) uint64 {
 func init() {
 	run.Register(&run.Engine{ID: "C15", Gen: genC15, Exec: execC15, Meta: run.Meta{
 		Technique:   "deterministic simulation: real wallet send pipeline against a scripted chain model (chainsim) behind the wallet.blockchain interface under a simulated clock, with injected errors, latencies and inclusion times",
-		Rule:        "one run = (version x key x workchain x sub-wallet x network id) x initial account state (none/uninit/active with a stored seqno/frozen) x history script (GetAccountState error/latency, SendMessage error/latency, seqno advancing never / at once / early / late / after the window, GetSeqno errors at chosen polls, poll latency) x confirmation window 0 or 1 s..5 min. Non-trivial = the wallet reached the chain party; distinct = distinct event-log digest among those. Abstract state = (version, account state, when the seqno advanced relative to the window, poll errors after the advance, number of polls).",
+		Rule:        "one run = (version x key x workchain x sub-wallet x network id) x initial account state (none/uninit/active with a stored seqno/frozen) x history script (GetAccountState error/latency, SendMessage error/latency, seqno advancing never / at once / early / late / after the window, GetSeqno errors at chosen polls, poll latency 1 ms..7 s) x confirmation window 0 or 1 s..5 min; 1/6 of the active accounts show data that is not wallet data (cut short, empty, absent); a quarter of the runs sends a second time through the same Wallet after the account changed. Non-trivial = the wallet reached the chain party; distinct = distinct event-log digest among those. Abstract state = (version, account state, when the seqno advanced relative to the window, poll errors after the advance, number of polls).",
 		Real:        []string{"wallet.New / GetAddress / GenerateWalletAddress / GenerateStateInit", "wallet.Wallet.SendV2 / RawSendV2 incl. confirmation polling", "NextMessageParams and message building of V3R1 V3R2 V4R1 V4R2 V5Beta V5R1 HighLoadV2R2 (V1/V2: address side only, message building is declared unimplemented)", "tlb/boc encoders underneath"},
 		Simulated:   []string{"the blockchain party (chainsim: account model, inclusion, errors, latencies)", "clock (testing/synctest): time.Now, time.Since, time.Sleep of the confirmation loop"},
 		Assumptions: []string{"wallet code cells are taken from the library's table (trusted); data and state-init cells are laid out and hashed by the harness", "boc.DeserializeBoc and the bit-level cell accessors are trusted to read back the captured message", "frozen accounts are not judged (the property does not say what to attach)", "A1-A3 (address half) is input sampling inside the workload, not what the simulator is for"},
